@@ -66,11 +66,11 @@ structure Keeps (st st' : State) : Prop where
 
 /-- `r` is the outcome of adding the condition `S` to the state `st`: on success the new state
     describes exactly the valuations of `st` that satisfy `S` (nothing lost, nothing invented); failure
-    means no valuation of `st` satisfies `S`.  (Fuel exhaustion and panics claim nothing.) -/
+    means no valuation of `st` satisfies `S`; a PANIC is excluded.  (Fuel exhaustion claims nothing.) -/
 def Ref (I : Nat → Prop) (S : Subst → Prop) (st : State) : Res State → Prop
   | .ok st' => WFS st' ∧ Keeps st st' ∧ ∀ γ, Sem I γ st' ↔ (Sem I γ st ∧ S γ)
   | .fail => ∀ γ, ¬ (Sem I γ st ∧ S γ)
   | .fuel => True
-  | .panic _ => True
+  | .panic _ => False
 
 end Pv
